@@ -4,7 +4,7 @@ from pyvc.verify import Post, Case, Equiv, NativeFacts
 from contracts import common, C03, C04, C07, C08, C13, C15, C16, C17, write_scan
 
 PROPERTY = 'C06'
-REF_MODULES = ['ref_core', 'ref_auto', 'ref_t', 'ref_match', 'ref_reduce', 'ref_registry', 'ref_stream', 'h_path']
+REF_MODULES = ['ref_core', 'ref_auto', 'ref_t', 'ref_match', 'ref_reduce', 'ref_registry', 'ref_stream', 'h_path', 'ref_extra']
 HERE = os.path.dirname(os.path.abspath(__file__))
 
 
@@ -61,6 +61,8 @@ def contracts():
     cs += _with(C15, ('reduction.Fold._fold', 'reduction.Merge._fold', 'reduction.Fold.glomit[Fold]'))
     cs += _with(C16, ('grouping.Group.glomit',))
     cs += _with(C17, ('streaming.Iter._add_op', 'core.Invoke.specs', 'core.Invoke.constants', 'core.Invoke.star'))
+    from contracts import extra
+    cs += common.shared(extra, ['core.Path.from_text'])
     return cs
 
 
